@@ -32,7 +32,7 @@ func c06(c *core.Ctx) map[string]interface{} {
 		"BEARER=1 for NAS over 3GPP access and DIRECTION=0 for uplink are the values of TS 33.501 6.4.3.1 / TS 33.401 B.1"}
 	fn := mustFunc(c, pTglib, "NASEncode")
 	r6paths(c, fn)
-	r6args(c, fn)
+	r6argsX(c)
 	r6count(c)
 	r6writers(c)
 	include(c, "C07")
@@ -171,6 +171,9 @@ func r6paths(c *core.Ctx, fn *ssa.Function) {
 	// to the paths of this function (a step moved into a helper is still the same step)
 	p.InlineCalls = func(call *ssa.Call) bool {
 		callee := call.Call.StaticCallee()
+		if callee != nil && isNewCountMethod(callee) {
+			return true // a Count method outside the known vocabulary is seen through to the known ones
+		}
 		return callee != nil && fnPkgPath(callee) == pTglib && callee.Name() != "EncodeNasPduWithSecurity"
 	}
 	if len(fn.Params) != 4 {
@@ -645,7 +648,7 @@ func r6count(c *core.Ctx) {
 		{"Set", func(b core.BitVec) bool { return b.IsCopy(7, 0, "p2", 0) && b.IsCopy(23, 8, "p1", 0) && top(b) }, "write the SQN to bits 7..0 and all 16 bits of the overflow to bits 23..8"},
 	} {
 		fn := method(m.name)
-		b, ok := countEffect(c, fn, 0)
+		b, ok := countEffectX(c, fn)
 		if !ok {
 			c.SoftUndecided("security.Count.%s: effect on the counter not expressible as a bit placement (not straight-line, or arithmetic on the counter)", m.name)
 			continue
@@ -657,7 +660,7 @@ func r6count(c *core.Ctx) {
 	addOK := false
 	{
 		fn := method("AddOne")
-		if b, ok := countEffect(c, fn, 0); ok {
+		if b, ok := countEffectX(c, fn); ok {
 			good := b.IsCopy(23, 0, "count+1", 0) && b.IsConst(31, 24, 0)
 			c.Check(good, R, "security.Count.AddOne", fn.Pos(), b.Describe(), "AddOne must leave (count+1) masked to 24 bits (wrap at 2^24); new value is %s", b.Describe())
 			addOK, clean["AddOne"] = true, good
@@ -700,7 +703,7 @@ func r6count(c *core.Ctx) {
 		p := core.NewPather(fn)
 		v := singleReturn(c, R, fn)
 		if v != nil && len(fn.Blocks) == 1 {
-			eff, okE := countEffect(c, fn, 0) // Get may normalise the counter before returning it
+			eff, okE := countEffectX(c, fn) // Get may normalise the counter before returning it
 			rb := core.NewBitAnalyzer(fn).Bits(v)
 			if okE && rb != nil && p.Path(v) == cnt {
 				rb = eff // returns the (possibly masked) stored counter
